@@ -210,6 +210,16 @@ func c03CheckR(c c03RCase) h.Result {
 		eps[i] = curve.NewExpandedRistrettoPoint(pts[i])
 	}
 	c03RExpect(r, "ExpandedMultiscalarMulVartime", New().ExpandedMultiscalarMulVartime(scs[:c.Static], eps, scs[c.Static:], pts[c.Static:]), want)
+	if n > 0 {
+		// the receiver is one of the input points
+		for _, k := range []int{0, n - 1} {
+			al := append([]*curve.RistrettoPoint(nil), pts...)
+			al[k] = cp(pts[k])
+			c03RExpect(r, "MultiscalarMul(receiver-is-an-input-point)", al[k].MultiscalarMul(scs, al), want)
+			al[k] = cp(pts[k])
+			c03RExpect(r, "MultiscalarMulVartime(receiver-is-an-input-point)", al[k].MultiscalarMulVartime(scs, al), want)
+		}
+	}
 
 	r.Eval(1)
 	if !bytes.Equal(c03REnc(p), pEnc) || !bytes.Equal(c03REnc(q), qEnc) || !bytes.Equal(c03ScalarBytes(s), c.S) {
